@@ -99,7 +99,8 @@ func (r *registry) handleBlobUploadChunk(ctx context.Context, resp http.Response
 	if err != nil {
 		return err
 	}
-	if _, err := io.Copy(w, req.Body); err != nil {
+	n, err := io.Copy(w, req.Body)
+	if err != nil {
 		w.Close()
 		return backendError("cannot copy blob data", err)
 	}
@@ -107,7 +108,13 @@ func (r *registry) handleBlobUploadChunk(ctx context.Context, resp http.Response
 		return backendError("cannot close BlobWriter", err)
 	}
 	resp.Header().Set("Location", r.locationForUploadID(rreq.Repo, w.ID()))
-	resp.Header().Set("Range", ocirequest.RangeString(0, w.Size()))
+	size := w.Size()
+	if n > 0 {
+		// Note: not w.Size(), which might already include a chunk that
+		// another request has added since this one's was accepted.
+		size = start + n
+	}
+	resp.Header().Set("Range", ocirequest.RangeString(0, size))
 	resp.WriteHeader(http.StatusAccepted)
 	return nil
 }
